@@ -52,7 +52,11 @@ ChildShapes ==
 
 VSlotForms == {<<>>,
                <<[k |-> "vslots", e |-> Ident("vs", FALSE, Obj(<< <<"foo", FnR("vsfoo", S(<<118>>))>> >>))]>>,
-               <<[k |-> "vslots", e |-> ObjLit(<< <<"foo", Arrow(Lit(Num(3)))>> >>)]>>}
+               <<[k |-> "vslots", e |-> ObjLit(<< <<"foo", Arrow(Lit(Num(3)))>> >>)]>>,
+               \* any expression may supply the slots: a member, a call, a parenthesised identifier
+               <<[k |-> "vslots", e |-> Member("o1", "slots", Obj(<< <<"foo", FnR("vsfoo", S(<<118>>))>> >>))]>>,
+               <<[k |-> "vslots", e |-> Call("mkSlots", Obj(<< <<"foo", FnR("vsfoo", S(<<118>>))>> >>))]>>,
+               <<[k |-> "vslots", e |-> Wrap("paren", Ident("vs", FALSE, Obj(<< <<"foo", FnR("vsfoo", S(<<118>>))>> >>)))]>>}
 
 Opts(eos, opt) == [DefaultOpts EXCEPT !.enableObjectSlots = eos, !.optimize = opt]
 
